@@ -61,6 +61,7 @@ func alphabet() []hx.Op {
 		}
 	}
 	ops = append(ops, hx.Op{Kind: "upgrade", Chart: chartP})
+	ops = append(ops, hx.Op{Kind: "install", Chart: chartQ, Replace: true}, hx.Op{Kind: "install", Chart: chartP, Replace: true, DisableHooks: true})
 	for _, cl := range []bool{false, true} {
 		for _, nh := range []bool{false, true} {
 			ops = append(ops, hx.Op{Kind: "rollback", CleanupOnFail: cl, DisableHooks: nh})
@@ -100,7 +101,7 @@ func config(tier string) *opspace.Config {
 			}
 			return 0
 		},
-		MaxFaulty: 2,
+		MaxFaulty: 1,
 		FaultKinds: func(_ string, op hx.Op, call sim.Call) []string {
 			if op.Kind == "uninstall" {
 				return nil
@@ -121,8 +122,48 @@ func config(tier string) *opspace.Config {
 	return cfg
 }
 
+// doubleFault: two faulty operations back to back (so that "previously deployed" and "most recent
+// revision that had been deployed" differ from the last revision), from populated histories, over the
+// operations without the no-hooks dimension.
+func doubleFault(tier string) *opspace.Config {
+	d := config(tier)
+	var ops []hx.Op
+	for _, o := range alphabet() {
+		if !o.DisableHooks && o.Kind != "uninstall" {
+			ops = append(ops, o)
+		}
+	}
+	d.Inits = []string{"installed", "upgraded", "failed-rollback"}
+	base := d.MakeInit
+	d.MakeInit = func(drv, init string) *hx.World {
+		switch init {
+		case "installed":
+			w := hx.NewWorld(drv)
+			w.Exec(hx.Op{Kind: "install", Release: "r", Chart: chartP}, nil)
+			return w
+		case "upgraded":
+			w := hx.NewWorld(drv)
+			w.Exec(hx.Op{Kind: "install", Release: "r", Chart: chartP}, nil)
+			w.Exec(hx.Op{Kind: "upgrade", Release: "r", Chart: chartQ}, nil)
+			return w
+		}
+		return base(drv, init)
+	}
+	d.Alphabet = func(_ *hx.World, _ []*rspb.Release, _ []opspace.Step) []opspace.Step {
+		var out []opspace.Step
+		for _, o := range ops {
+			out = append(out, opspace.Step{Op: o})
+		}
+		return out
+	}
+	d.DepthFor = nil
+	d.MaxDepth, d.MaxFaulty = 2, 2
+	return d
+}
+
 func run(c *core.Ctx) {
 	config(c.Tier).Run(c)
+	doubleFault(c.Tier).Run(c)
 	if c.Thorough() {
 		// depth 4 with one faulty operation per history (memory driver)
 		d := config("quick")
@@ -143,7 +184,7 @@ func replay(c *core.Ctx, data json.RawMessage) []core.Violation {
 	if err := json.Unmarshal(data, &rd); err != nil {
 		return nil
 	}
-	config(rd.Tier).ReplayPath(c, rd.Replay)
+	doubleFault(rd.Tier).ReplayPath(c, rd.Replay) // its MakeInit knows every initial state
 	return core.FilterKey(c.TakeViolations(), rd.Key)
 }
 
@@ -376,8 +417,23 @@ func check(c *core.Ctx, t *opspace.Transition) {
 			case last.Manifest != good.Manifest:
 				violate("O5-atomic-manifest", fmt.Sprintf("revision %d does not carry the manifest of revision %d", last.Version, good.Version))
 			default:
+				// objects that only the failed revision's manifest names must be gone again
+				var left []string
+				goodDocs, _ := hx.ParseManifest(good.Manifest)
+				inGood := map[string]bool{}
+				for _, d := range goodDocs {
+					inGood[d.Path()] = true
+				}
+				failedDocs, _ := hx.ParseManifest(created[0].Manifest)
+				for _, d := range failedDocs {
+					if _, ok := t.Post.Sim.Get(d.Path()); ok && !inGood[d.Path()] {
+						left = append(left, d.Kind+"/"+d.Name)
+					}
+				}
 				if bad := t.Post.ClusterMatches(good.Manifest, "r"); len(bad) > 0 {
 					violate("O5-atomic-cluster", fmt.Sprintf("cluster does not match restored revision %d: %s", good.Version, strings.Join(bad, "; ")))
+				} else if len(left) > 0 {
+					violate("O5-atomic-leftover", fmt.Sprintf("after the atomic rollback to revision %d the cluster still holds %v, which only the failed revision's manifest names", good.Version, left))
 				} else {
 					c.Floor("atomic-upgrade-restored")
 				}
